@@ -51,13 +51,21 @@ def layout_clause(model, rep, funcs):
             continue
         rep.instance("L.weight", f.loc())
         loops = [lp for lp in walk_no_nested(f.node) if isinstance(lp, ast.For) and norm_src(lp.iter) == "shape"]
-        if len(loops) != 1:
+        comps = [g for n_ in ast.walk(f.node) if isinstance(n_, (ast.ListComp, ast.GeneratorExp)) for g in n_.generators if norm_src(g.iter) == "shape"]
+        if len(loops) == 1:
+            lp = loops[0]
+            dv = norm_src(lp.target)
+            ar = [c for c in ast.walk(lp) if isinstance(c, ast.Call) and (dotted(c.func) or "").split(".")[-1] == "arange"]
+            sh = [c for c in ast.walk(lp) if isinstance(c, ast.Call) and (dotted(c.func) or "").split(".")[-1] in ("ifftshift", "fftshift")]
+        elif not loops and len(comps) == 1:
+            # the same grid written as comprehensions: one over the axis sizes builds the axes, the shift is applied to each of them
+            lp = f.node
+            dv = norm_src(comps[0].target)
+            ar = [c for c in ast.walk(f.node) if isinstance(c, ast.Call) and (dotted(c.func) or "").split(".")[-1] == "arange"]
+            sh = [c for c in ast.walk(f.node) if isinstance(c, ast.Call) and (dotted(c.func) or "").split(".")[-1] in ("ifftshift", "fftshift")]
+        else:
             rep.ob("L", a, "per-axis frequency grid loop found", None, "", node=f.node, fn=f, clause="2 layout", stmt=f"def nd_butterworth_weight ({a})")
             continue
-        lp = loops[0]
-        dv = norm_src(lp.target)
-        ar = [c for c in ast.walk(lp) if isinstance(c, ast.Call) and (dotted(c.func) or "").split(".")[-1] == "arange"]
-        sh = [c for c in ast.walk(lp) if isinstance(c, ast.Call) and (dotted(c.func) or "").split(".")[-1] in ("ifftshift", "fftshift")]
         if len(ar) != 1 or len(sh) != 1 or len(ar[0].args) < 2:
             rep.ob("L", a, "grid is arange(lo, hi) followed by one shift", None, f"arange: {len(ar)}, shift: {len(sh)}", node=lp, fn=f, clause="2 layout",
                    stmt=f"weight grid ({a})")
